@@ -138,21 +138,31 @@ class World:
         if self.observe_pending:
             ev["pend_before"] = self.pending(who)
         ev["expect"] = None if (is_reg or se.pending_term is not None) else (se.model.call_expect(m, a) if self._args_ok(se, m, a) else None)
+        build_failed = False
         try:
             args, kwargs = values.build_call(m, a)
-        except (KeyError, ValueError, TypeError) as e:
+        except (KeyError, TypeError) as e:
             ev["noop"] = True
             ev["build_error"] = repr(e)
             return ev
-        try:
-            ret = getattr(se.real, m)(*args, **kwargs)
-            ev["accepted"] = True
-            ev["ret"] = ret
-            ev["exc"] = None
-        except Exception as e:  # noqa: BLE001 - every exception class is an observation
+        except Exception as e:  # noqa: BLE001
+            # building the arguments runs library code too (e.g. LDAPResultCode(<int>)): if that raises, the application's
+            # call never reaches the session - an argument error, observed like a call that failed before sending anything
+            build_failed = True
             ev["accepted"] = False
             ev["ret"] = None
             ev["exc"] = exc_info(e)
+            ev["exc"]["ldap"] = False
+        if not build_failed:
+            try:
+                ret = getattr(se.real, m)(*args, **kwargs)
+                ev["accepted"] = True
+                ev["ret"] = ret
+                ev["exc"] = None
+            except Exception as e:  # noqa: BLE001 - every exception class is an observation
+                ev["accepted"] = False
+                ev["ret"] = None
+                ev["exc"] = exc_info(e)
         ev["st_after"] = state_name(se.real)
         if self.observe_pending:
             ev["pend_after"] = self.pending(who)
@@ -164,7 +174,8 @@ class World:
         else:
             exp = ev["expect"]
             ev["sync"] = exp in (None, "either") or (exp == "accept") == ev["accepted"]
-            if exp in ("accept", "either") and not ev["accepted"] and not ev["exc"]["ldap"] and ev["exc"]["type"] in ("UnicodeEncodeError",):
+            if exp in ("accept", "either") and not ev["accepted"] and not ev["exc"]["ldap"] and (
+                    build_failed or ev["exc"]["type"] in ("UnicodeEncodeError",)):
                 # argument error (a str that cannot be encoded): the call fails before anything is sent; not a refusal by
                 # the state machine and not a verdict about it - the model treats it as a call without effect
                 ev["arg_error"] = True
